@@ -861,14 +861,28 @@ class Builder:
                 factory = {"dict": dict, "Mapping": dict, "MutableMapping": dict,
                            "ordereddict": collections.OrderedDict,
                            "defaultdict": lambda x: collections.defaultdict(lambda: None, x)}[origin]
-                return [factory(full), factory({})]
+                out = [factory(full), factory({})]
+                # an abstract source type admits mappings that are not dicts: a converter into Dict[...] must rebuild them
+                if origin == "Mapping":
+                    out.insert(1, types.MappingProxyType(dict(full)))
+                elif origin == "MutableMapping":
+                    out.insert(1, collections.ChainMap(dict(full)))
+                return out
             elems = self.values(spec[2][0], tv)
             factory = {"list": list, "set": set, "frozenset": frozenset, "deque": collections.deque, "tuple": tuple,
                        "Sequence": list, "MutableSequence": list, "Iterable": list, "Collection": list,
                        "Reversible": list, "AbstractSet": frozenset, "MutableSet": set}[origin]
             if origin in SETLIKE:
                 elems = [e for e in elems if _is_hashable(e)]
-            return [factory(elems), factory([])]
+            out = [factory(elems), factory([])]
+            # same for abstract iterables: a tuple is a Sequence / Collection / Iterable / Reversible, a deque a MutableSequence
+            if origin in ("Sequence", "Collection", "Iterable", "Reversible"):
+                out.insert(1, tuple(elems))
+            elif origin == "MutableSequence":
+                out.insert(1, collections.deque(elems))
+            elif origin == "AbstractSet" and all(_is_hashable(e) for e in elems):
+                out.insert(1, set(elems))
+            return out
         if k == "u":
             out = []
             per = [self.values(m, tv) for m in spec[1]]
